@@ -28,6 +28,14 @@ NESTED_Q = ("inter_nested",)  # intersection(intersection(a, b), c): an uncopied
 SELF_Q = ("hash", "repr", "length", "area", "volume", "volume_fn")
 
 
+METHOD_FORM_Q = ("distance", "angle", "parallel", "orthogonal")
+METHOD_FORM_COUNT = {}  # per process, reported through the run statistics
+
+
+def _method_form(a, b):
+    return sum(ord(ch) for ch in str(a) + "/" + str(b)) % 2 == 1
+
+
 def _q(name):
     G = lib()
     return {
@@ -582,6 +590,13 @@ class World(object):
         if oa is None or (b is not None and ob is None):
             return None, False
         fn = _q(q)
+        if q in METHOD_FORM_Q and b is not None and c is None and _method_form(a, b) and any(k.__name__ == "GeoBody" for k in type(oa).__mro__):
+            # the same public query through its method form (GeoBody.distance / angle /
+            # parallel / orthogonal): chosen by a fixed function of the operand names,
+            # so hot world, re-asks and cold replays of one query use one form, and
+            # roughly half of all such queries go each way (seeded defect S80)
+            fn = lambda x, y, _q=q: getattr(x, _q)(y)
+            METHOD_FORM_COUNT[q] = METHOD_FORM_COUNT.get(q, 0) + 1
         if c is not None:
             oc = self.get(c)
             if oc is None:
@@ -950,6 +965,9 @@ def execute(history, opts=None):
             ctx.event(step, kind, ",".join(outs))
         else:
             ctx.event(step, kind, "unknown-op")
+    for k in sorted(METHOD_FORM_COUNT):
+        ctx.count("method_form:" + k, METHOD_FORM_COUNT[k])
+    METHOD_FORM_COUNT.clear()
     return _result(ctx, history)
 
 
